@@ -37,6 +37,12 @@ CLOCK0 = 1760000000          # after blame.rs OLDEST_AI_BLAME_DATE (2025-07-04);
 KINDS = ["rebase-clean", "rebase-clean", "rebase-clean", "rebase-upstream-tracked", "rebase-reorder",
          "rebase-drop", "rebase-missing-note", "cp-single", "cp-range", "cp-range", "cp-list-skip",
          "cp-target-differs"]
+# the target / upstream has ALREADY made a line-count-changing change (deletes the first line of a tracked file)
+# which the LAST commit of the series makes too: git merges the identical change cleanly, the final pair of
+# (original, rewritten) commits is blob-identical on the tracked paths, every earlier pair is not (and its AI
+# lines sit one line higher than the original's note says). Drawn from their own stream (specs_for), so that the
+# histories of the older kinds keep their seeds.  (seeded/C05-seed3-cherry-pick-last-pair-only)
+EXTRA_KINDS = ["cp-target-anticipates", "rebase-upstream-anticipates"]
 TRACKED_NAMES = ["f1.txt", "src/g2.py", "h 3.md", "w[1].txt", "dé/k.rs"]
 
 
@@ -62,6 +68,7 @@ def gen_spec(kind, seed):
     ncommits = rnd.randint(3, 4) if kind == "rebase-reorder" else rnd.randint(2, 4)
     if kind == "cp-single":
         ncommits = rnd.randint(1, 3)
+    anticipate = kind in EXTRA_KINDS
     commits = []
     for k in range(1, ncommits + 1):
         if kind == "rebase-reorder" and k >= ncommits - 1:
@@ -69,6 +76,8 @@ def gen_spec(kind, seed):
             files = [tracked[(k - ncommits) % len(tracked)]]
         else:
             files = rnd.sample(tracked, rnd.randint(1, min(2, len(tracked))))
+        if anticipate and k == 1 and tracked[-1] not in files:
+            files.append(tracked[-1])       # an AI line of an EARLIER commit sits below the anticipated deletion
         edits = []
         for f in files:
             ops = [("insert", rnd.random(), rnd.randint(1, 3))]
@@ -80,7 +89,7 @@ def gen_spec(kind, seed):
         # note without any line (drawn last, from its own stream, so that older corpus seeds keep their histories)
         if random.Random(f"c15x:{kind}:{seed}:{k}").random() < 0.15:
             commits[-1]["extra_session"] = f"gone-{seed}-{k}"
-    return {"kind": kind, "seed": seed, "tracked": tracked, "commits": commits,
+    return {"kind": kind, "seed": seed, "tracked": tracked, "commits": commits, "anticipate": anticipate,
             "human_mid": kind == "cp-list-skip" or (kind in ("rebase-clean", "cp-range") and rnd.random() < 0.2),
             "base_len": rnd.randint(7, 10), "drop_note": rnd.randrange(ncommits), "tool_input": rnd.random() < 0.35}
 
@@ -247,6 +256,12 @@ def run_scenario(spec):
                 if kind != "cp-list-skip":
                     origs.append(m); ghost.append({f: list(v) for f, v in tree.items()}); labels.append(0)
             files = []
+            if spec.get("anticipate") and k == ncom and ncom >= 2:
+                # a person deletes the first line of the last tracked file as part of the last commit
+                fa = tracked[-1]
+                tree[fa] = tree[fa][1:]
+                r.write(fa, content(tree[fa]))
+                r.human_checkpoint([fa])
             if c.get("extra_session"):
                 f0 = c["edits"][0][0]
                 r.write(f0, content(tree[f0][:2] + [Line(f"k{k}-gone")] + tree[f0][2:]))
@@ -283,6 +298,9 @@ def run_scenario(spec):
         if kind in ("rebase-upstream-tracked", "cp-target-differs"):
             f0 = tracked[-1]
             r.write(f0, content([Line(f"{f0}-base-0-upstream")] + [Line(f"{f0}-base-{i}") for i in range(1, spec["base_len"])]))
+        if spec.get("anticipate"):
+            f0 = tracked[-1]
+            r.write(f0, content([Line(f"{f0}-base-{i}") for i in range(1, spec["base_len"])]))
         r.commit("upstream")
         if kind == "rebase-missing-note":
             r.plain_git("notes", "--ref=ai", "remove", origs[spec["drop_note"] % len(origs)])
@@ -599,6 +617,8 @@ def specs_for(seed, n):
     for i in range(n):
         kind = KINDS[i % len(KINDS)]
         out.append(gen_spec(kind, f"{seed}-{i}"))
+    for i in range(max(2, n // 8)):
+        out.append(gen_spec(EXTRA_KINDS[i % len(EXTRA_KINDS)], f"{seed}-x{i}"))
     return out
 
 
